@@ -124,7 +124,7 @@ extern void mpt_identifier_init(MPT_STRUCT(identifier) *id, size_t len)
 extern void *mpt_identifier_copy(MPT_STRUCT(identifier) *id, const MPT_STRUCT(identifier) *from)
 {
 	const void *base;
-	void *dest;
+	void *dest, *old;
 	
 	if (!from) {
 		return mpt_identifier_set(id, 0, 0);
@@ -139,10 +139,11 @@ extern void *mpt_identifier_copy(MPT_STRUCT(identifier) *id, const MPT_STRUCT(id
 	else if (!(dest = malloc(from->_len))) {
 		return 0;
 	}
+	/* inline data overlays address of old allocation */
+	old = (id->_len > id->_max) ? id->_base : 0;
 	memcpy(dest, base, from->_len);
-	if (id->_len > id->_max) {
-		free(id->_base);
-		id->_base = 0;
+	if (old) {
+		free(old);
 	}
 	if (dest != id->_val) {
 		memset(id->_val, 0, sizeof(id->_val));
